@@ -720,6 +720,18 @@ def run_c12(ctx):
             ctx.violations += judge_c12(ctx, cfg, batch)
             for d in batch[:3]:
                 ctx.sample({'op': 'st', 'cfg': cfg, 'input_hex': hx(d), 'calls': 7})
+    for cfg in [c for c in getattr(ctx, 'side_cfgs', []) if c not in ctx.cfgs]:
+        # float_roundtrip side configuration: long number literals (scratch-buffer paths of de.rs) as LATER items of a stream, after items that leave
+        # bytes in the shared scratch buffer (escaped strings, > u64 integers, other long decimals)
+        rng = ctx.rng
+        dirt = [b'"a\\u0037b"', b'"\\n\\t"', b'18446744073709551616123', b'1.2345678901234567890123', b'{"k\\u0041":"v\\\\"}', b'[1]']
+        longs = [b'0.00000123456789012345678901234', b'0.00123456789012345678901', b'123456789012345678901234567890.5', b'0.000000000000000000001234567890123456789',
+                 b'1.00000000000000000000000001e5', b'9007199254740993.0000000000001', b'0.1000000000000000055511151231257827', b'12345678901234567890e-5']
+        streams = []
+        for _ in range(600 if ctx.tier == 'quick' else 6000):
+            items = [rng.choice(dirt) for _ in range(rng.choice([1, 2]))] + [rng.choice(longs) for _ in range(rng.choice([1, 2]))] + [rng.choice(dirt + longs)]
+            streams.append(rng.choice([b' ', b'\n']).join(items) + rng.choice([b'', b' ']))
+        ctx.violations += judge_c12(ctx, cfg, streams)
     typed_part(ctx, 'run_c12_typed')
 
 # ================================================================== C13: read faults
@@ -1205,7 +1217,7 @@ register('C02', cfgs={'quick': ['def', 'po'], 'thorough': ['def', 'po', 'fr', 'a
 register('C09', cfgs={'quick': ['def'], 'thorough': ['def', 'raw', 'ap', 'fr', 'po', 'ud']}, run=run_c09, judge=judge_c09, extended=run_c09, trusted_base=PARSER_TB)
 register('C10', cfgs={'quick': ['def', 'raw'], 'thorough': ['def', 'raw', 'ap']}, run=run_c10, judge=None, extended=run_c10, trusted_base=PARSER_TB)
 register('C11', cfgs={'quick': ['def'], 'thorough': ['def']}, run=run_c11, judge=judge_c11, extended=run_c11, trusted_base=PARSER_TB)
-register('C12', cfgs={'quick': ['def'], 'thorough': ['def']}, run=run_c12, judge=judge_c12, extended=run_c12, trusted_base=PARSER_TB)
+register('C12', cfgs={'quick': ['def'], 'thorough': ['def']}, side_cfgs=['fr'], run=run_c12, judge=judge_c12, extended=run_c12, trusted_base=PARSER_TB)
 register('C13', cfgs={'quick': ['def'], 'thorough': ['def']}, side_cfgs=['ap'], run=run_c13, judge=None, extended=run_c13, trusted_base=PARSER_TB)
 register('C14', cfgs={'quick': ['def'], 'thorough': ['def', 'ud']}, side_cfgs=['ud'], run=run_c14, judge=judge_c14, extended=run_c14, trusted_base=PARSER_TB)
 register('C19', cfgs={'quick': ['raw'], 'thorough': ['raw', 'rawpofr']}, run=run_c19, judge=judge_c19, extended=run_c19, trusted_base=PARSER_TB)
